@@ -63,9 +63,9 @@ chk("C19", "E2", "explicit enumeration of parser-produced trees x indent strings
     "Every tree of the C16 spaces and every operator x spelling x literal (incl. escapes) x 4 indents x 3 levels: byte-equal to the reference rendering, no panic, deterministic; Selector.String on constructed selectors.",
     "Reference renderer reads tree fields only; %q == strconv.Quote.", "DESIGN.md 5 C19")
 
-chk("C20", "E6", "complete synchronous product walk of two finite rule graphs (grammar.peg read by an own PEG-syntax reader vs the g table and on*/callon* functions of grammar.go read with go/ast), plus exhaustive rune-domain comparison of every character class",
+chk("C20", "E6", "complete synchronous product walk of two finite rule graphs (grammar.peg read by an own PEG-syntax reader vs the g table and on*/callon* functions of grammar.go read with go/ast), plus exhaustive rune-domain comparison of every character class, both as written in the table literal and as it exists in the rule table at run time",
     "Complete, unbounded: all 37 rules, every expression node pair, every literal/flag/label/reference, all 1,114,112 runes for each of the character classes, every action and predicate body after go/printer normalisation, parameter lists and wrapper argument order; nothing left unmatched.",
-    "Structural equality of the shipped pair; positions/display strings reported not judged; the generic PEG engine is covered behaviourally by C15/C10/C11.", "DESIGN.md 5 C20")
+    "Structural equality of the shipped pair; run-time class tables read through a read-only accessor added by the generated overlay (build tag verif); positions/display strings reported not judged; the generic PEG engine is covered behaviourally by C15/C10/C11.", "DESIGN.md 5 C20")
 
 chk("C14", "E5", "exhaustive exploration of every answer the environment may give at each map-iteration point (all n! key orders per call, depth-first over the sequence of calls) on the real Evaluate/Execute through the generated map-order seam",
     "For every (expression, datum) of the bounded space (maps of 2..4 [thorough 5] entries with every {T,F,E} assignment x any/all x binding modes, nested map-in-map / list-of-maps, filters over maps) ALL iteration-order answer sequences are executed on the real code: one outcome class per case (filters: same kept keys or same error-ness). A free-repetition pass is run as a labelled sampling complement.",
